@@ -3,7 +3,9 @@
 package framework
 
 import (
+	"github.com/LiskHQ/lisk-engine/pkg/blockchain"
 	"github.com/LiskHQ/lisk-engine/pkg/collection/bytes"
+	"github.com/LiskHQ/lisk-engine/pkg/crypto"
 	"github.com/LiskHQ/lisk-engine/pkg/db"
 	"github.com/LiskHQ/lisk-engine/pkg/db/diffdb"
 	"github.com/LiskHQ/lisk-engine/pkg/labi"
@@ -75,4 +77,161 @@ func zzH_C16_init_recovers(t *zzT) {
 	st, ok := database.Get(bytes.Join(StateDBPrefixTreeState, emptyBytes))
 	t.Assert(ok && len(st) >= 4 && bytes.ToUint32(st[:4]) == engineHeight, "after Init the application tree state is at the engine's height")
 	t.Reach("end")
+}
+
+// ---- C16.d: the committed state root is the sparse-Merkle root of the resulting state ----
+
+func zz16Leaf(key, value []byte) []byte {
+	return crypto.Hash(append(append([]byte{0x00}, key...), value...))
+}
+func zz16Branch(l, r []byte) []byte {
+	return crypto.Hash(append(append([]byte{0x01}, l...), r...))
+}
+func zz16Bit(key []byte, i int) bool { return (key[i/8]>>(7-uint(i)%8))&1 == 1 }
+
+// zz16RefRoot: LIP-0039 root of the map given as parallel lists (tree key -> stored value), by
+// recursion on the bit position: empty set = empty hash, a lone leaf is lifted to the top of its
+// subtree, otherwise branch(left half, right half).
+func zz16RefRoot(keys, vals [][]byte, depth int) []byte {
+	if len(keys) == 0 {
+		return emptyHash
+	}
+	if len(keys) == 1 {
+		return zz16Leaf(keys[0], vals[0])
+	}
+	var lk, lv, rk, rv [][]byte
+	for i, k := range keys {
+		if zz16Bit(k, depth) {
+			rk, rv = append(rk, k), append(rv, vals[i])
+		} else {
+			lk, lv = append(lk, k), append(lv, vals[i])
+		}
+	}
+	return zz16Branch(zz16RefRoot(lk, lv, depth+1), zz16RefRoot(rk, rv, depth+1))
+}
+
+// zz16StateKey: database key of a module-store entry: db prefix, 4-byte module id, 2-byte store prefix, key.
+func zz16StateKey(k byte) []byte { return []byte{0, 0, 0, 0, 9, 0, 0, k} }
+
+// C16.d: two blocks through the real ABIHandler.Commit (diffdb commit -> stateSMTBatch -> real
+// smt.Update over batchdb) and the real Revert: block 1 sets P keys of one module store to symbolic
+// values, block 2 applies one symbolic operation (overwrite / delete / add a new key / delete an absent
+// key). After each Commit the returned state root equals the LIP-0039 reference root of the resulting
+// state (tree key = store prefix ‖ hash(key), stored value = hash(value), deleted keys ABSENT); a
+// Commit with a wrong expected root fails; Revert of block 2 returns the root of block 1 and leaves the
+// state store as after block 1.
+//
+//zz:opt loop=400 gor=4000 hashdepth=64 sched=0 require=end,deleted,added
+//zz:quick P=2 budget=300s
+//zz:thorough P=3 budget=3600s
+func zzH_C16_commit_revert_root(t *zzT) {
+	P := t.Param("P", 2)
+	kind := t.Choice("block2.op", 4) // 0 overwrite, 1 delete present, 2 add new key, 3 delete absent key
+	target := t.Choice("block2.target", P)
+	db.ZZUnordered = true // tree nodes are keyed by symbolic hashes: no ordering among them is needed
+	database, err := db.NewInMemoryDB()
+	if err != nil {
+		t.Fail("db")
+	}
+	a := &ABIHandler{logger: zz16Logger{}, stateDB: database}
+	begin := func(height uint32) *diffdb.Database {
+		ds := diffdb.New(database, StateDBPrefixState)
+		a.executionContext = &executionContext{id: []byte{byte(height)}, header: &blockchain.BlockHeader{Height: height}, diffStore: ds}
+		return ds
+	}
+	// model of the state: parallel lists of tree keys and stored (hashed) values
+	var mk, mv [][]byte
+	set := func(k byte, v []byte) {
+		tk := getTreeKey(zz16StateKey(k))
+		for i := range mk {
+			if bytes.Equal(mk[i], tk) {
+				mv[i] = crypto.Hash(v)
+				return
+			}
+		}
+		mk, mv = append(mk, tk), append(mv, crypto.Hash(v))
+	}
+	del := func(k byte) {
+		tk := getTreeKey(zz16StateKey(k))
+		for i := range mk {
+			if bytes.Equal(mk[i], tk) {
+				mk, mv = append(mk[:i:i], mk[i+1:]...), append(mv[:i:i], mv[i+1:]...)
+				return
+			}
+		}
+	}
+	// block 1
+	ds := begin(1)
+	for k := 0; k < P; k++ {
+		v := t.Bytes(t.Name("v1", k), 1)
+		ds.Set(zz16StateKey(byte(k))[1:], v)
+		set(byte(k), v)
+	}
+	r1, err := a.Commit(&labi.CommitRequest{ContextID: []byte{1}, StateRoot: emptyHash})
+	t.Assert(err == nil && r1 != nil, "Commit of block 1 succeeds")
+	if err != nil {
+		return
+	}
+	want1 := zz16RefRoot(mk, mv, 0)
+	t.Assert(bytes.Equal(r1.StateRoot, want1), "state root after block 1 = sparse-Merkle root of the resulting state")
+	after1 := database.Iterate(StateDBPrefixState, -1, false)
+	k1, v1 := append([][]byte{}, mk...), append([][]byte{}, mv...)
+	// block 2
+	ds = begin(2)
+	nv := t.Bytes("v2", 1)
+	switch kind {
+	case 0:
+		ds.Set(zz16StateKey(byte(target))[1:], nv)
+		set(byte(target), nv)
+	case 1:
+		ds.Del(zz16StateKey(byte(target))[1:])
+		del(byte(target))
+		t.Reach("deleted")
+	case 2:
+		ds.Set(zz16StateKey(byte(P))[1:], nv)
+		set(byte(P), nv)
+		t.Reach("added")
+	default:
+		ds.Del(zz16StateKey(byte(P + 1))[1:])
+	}
+	want2 := zz16RefRoot(mk, mv, 0)
+	dry, err := a.Commit(&labi.CommitRequest{ContextID: []byte{2}, StateRoot: r1.StateRoot, DryRun: true})
+	t.Assert(err == nil && dry != nil && bytes.Equal(dry.StateRoot, want2), "state root after block 2 = sparse-Merkle root of the resulting state (deleted keys absent)")
+	if err != nil {
+		return
+	}
+	wrong := append([]byte{}, dry.StateRoot...)
+	wrong[0] ^= 1
+	_, werr := a.Commit(&labi.CommitRequest{ContextID: []byte{2}, StateRoot: r1.StateRoot, ExpectedStateRoot: wrong, DryRun: true})
+	t.Assert(werr != nil, "Commit with an expected state root that differs from the computed one fails")
+	r2, err := a.Commit(&labi.CommitRequest{ContextID: []byte{2}, StateRoot: r1.StateRoot, ExpectedStateRoot: dry.StateRoot})
+	t.Assert(err == nil && r2 != nil && bytes.Equal(r2.StateRoot, dry.StateRoot), "the dry run and the real Commit agree on the state root")
+	if err != nil {
+		return
+	}
+	// revert block 2
+	rv, err := a.Revert(&labi.RevertRequest{ContextID: []byte{2}, StateRoot: r2.StateRoot})
+	t.Assert(err == nil && rv != nil && bytes.Equal(rv.StateRoot, zz16RefRoot(k1, v1, 0)), "reverting block 2 restores the state root of block 1")
+	// the state store (prefix 0) is as after block 1; tree nodes / diff / tree-state records are not compared
+	same := true
+	st1, st2 := after1, database.Iterate(StateDBPrefixState, -1, false)
+	if len(st1) != len(st2) {
+		same = false
+	} else {
+		for i := range st1 {
+			same = same && bytes.Equal(st1[i].Key(), st2[i].Key()) && bytes.Equal(st1[i].Value(), st2[i].Value())
+		}
+	}
+	t.Assert(same, "reverting block 2 restores the state store of block 1")
+	t.Reach("end")
+}
+
+func zz16StateOnly(kvs []db.KeyValue) []db.KeyValue {
+	var out []db.KeyValue
+	for _, kv := range kvs {
+		if len(kv.Key()) > 0 && kv.Key()[0] == StateDBPrefixState[0] {
+			out = append(out, kv)
+		}
+	}
+	return out
 }
